@@ -17,7 +17,7 @@ def run(ck):
     cs = vf.read_ndjson(cases)
     ck.sample({"case": [c for c in cs if c["kind"] == "pair" and c["n"] == 2][7]})
     ck.bound("N1", "all matrices with entries -3..3, all pairs")
-    ck.bound("sampled_matrices_N2_N3_N4", [24, 10, 8] if ck.quick else [120, 40, 30])
+    ck.bound("sampled_matrices_N2_N3_N4", [24, 10, 8] if ck.quick else [60, 30, 20])
     fls = ["asan"] if ck.quick else ["asan", "rel", "dbg"]
     for sp, b, log in ck.build_many([{"name": "h_algebra", "sources": "h_algebra.cpp", "flavour": fl} for fl in fls]):
         fl = sp["flavour"]
